@@ -20,3 +20,14 @@ theorem C07_trans_EqualFold : ∀ s t : GB.Bytes, GB.Generated.Trans.EqualFold s
 theorem C07_trans_decodeTimeout : ∀ s : GB.Bytes,
     GB.Generated.Trans.decodeTimeout s = GB.C12.TransTie.ofOption (GB.C12.decodeTimeout s) :=
   C12_trans_decodeTimeout
+
+/-- Wave 4: the timeout component of the C07 model's `baseContext` IS the skeleton of `ProxyForwarder.baseContext` over
+    the regenerated presence test (`if v := md.Get("grpc-timeout"); len(v) > 0`) and first-value decode
+    (`if d, ok := decodeTimeout(v[0]); ok`), with `metadata.MD` = the model's `MD.get` -/
+theorem C07_trans_baseContext : ∀ md : GB.C07.MD,
+    (GB.C07.baseContext md).2 = GB.C12.TransTie.baseContextDeadline (fun k => GB.C07.MD.get md k) := by
+  intro md
+  rw [C12_trans_baseContext]
+  show (GB.C07.baseContext md).2 = GB.C12.callDeadline (GB.C07.MD.get md GB.C07.timeoutKey)
+  unfold GB.C07.baseContext GB.C12.callDeadline
+  cases GB.C07.MD.get md GB.C07.timeoutKey <;> rfl
